@@ -51,7 +51,8 @@ Definition script_gen (g : sgen) : generator := {|
     match nth_error (st_defers st) i with
     | Some (b, r) => (st, {| so_body := b; so_res := r; so_defers := [] |})
     | None => (st, {| so_body := []; so_res := RNil; so_defers := [] |})
-    end
+    end;
+  g_fuel := 1000   (* the scripted callbacks register nothing: the queue is at most the script's length *)
 |}.
 
 (* ---------- env from tables ---------- *)
@@ -171,7 +172,7 @@ Definition has_direct (w : world) : bool := existsb (is_direct w) (w_pkgs w).
 Definition spec_cached (a : args) (w : world) (before : fs) (p : pkginfo) : bool :=
   a_all a && negb (a_force a) && has_direct w &&
   match fs_lookup (sum_path w) before with
-  | Some b => bytes_eqb (sum_get (sumfile_load b) (pk_path p)) (pk_hash p)
+  | Some b => negb (is_nil (pk_hash p)) && bytes_eqb (sum_get (sumfile_load b) (pk_path p)) (pk_hash p)
   | None => false
   end.
 Definition spec_processed (a : args) (w : world) (before : fs) (p : pkginfo) : bool :=
